@@ -71,11 +71,19 @@ def model_strategy():
         'sample_size': st.one_of(st.none(), st.none(), st.integers(20, 200))})})
     trunc = st.fixed_dictionaries({'cls': st.just('TruncatedGaussian'), 'opts': st.one_of(
         st.just({}), st.fixed_dictionaries({'lo_frac': st.floats(0.0, 2.0), 'hi_frac': st.floats(0.0, 2.0)}),
-        st.fixed_dictionaries({'lo_frac': st.floats(0.0, 2.0), 'hi_frac': st.floats(0.0, 2.0), 'zero_bound': st.just(True)}))})
+        st.fixed_dictionaries({'lo_frac': st.floats(0.0, 2.0), 'hi_frac': st.floats(0.0, 2.0), 'zero_bound': st.just(True)}),
+        st.fixed_dictionaries({'lo_frac': st.floats(0.0, 2.0), 'hi_frac': st.floats(0.0, 2.0), 'one_sided': st.sampled_from(['min', 'max'])}))})
     wrapper = st.fixed_dictionaries({'cls': st.just('Univariate'), 'opts': st.one_of(
         st.fixed_dictionaries({'candidates': st.lists(st.sampled_from(M.FAST_CLASSES + ['StudentTUnivariate']), min_size=1, max_size=3, unique=True)}),
         st.fixed_dictionaries({'parametric': st.just('PARAMETRIC'), 'bounded': st.sampled_from(['BOUNDED', 'UNBOUNDED', 'SEMI_BOUNDED'])}),
-        st.fixed_dictionaries({'parametric': st.just('NON_PARAMETRIC')}))})
+        st.fixed_dictionaries({'parametric': st.just('NON_PARAMETRIC')}),
+        # candidates given as configured instances
+        st.fixed_dictionaries({'candidate_instances': st.lists(st.sampled_from([
+            {'cls': 'GaussianKDE', 'opts': {'bw_method': 0.1}}, {'cls': 'GaussianKDE', 'opts': {'bw_method': 'silverman'}},
+            {'cls': 'GaussianUnivariate', 'opts': {}}, {'cls': 'GammaUnivariate', 'opts': {}}]), min_size=1, max_size=2)}),
+        # selection on a subsample, with a seeded model
+        st.fixed_dictionaries({'candidates': st.just(['GaussianUnivariate', 'UniformUnivariate', 'GammaUnivariate']),
+                               'selection_sample_size': st.integers(5, 40), 'random_state': st.integers(0, 1000)}))})
     return st.one_of(plain, plain, kde, kde, trunc, wrapper)
 
 
@@ -93,8 +101,14 @@ def build_model(spec, data, random_state=None):
                 opts['minimum'] = 0.0          # a bound that is exactly zero (falsy) is a legitimate user bound
             elif zero and np.max(data) < 0:
                 opts['maximum'] = 0.0
+            if spec['opts'].get('one_sided') == 'min':
+                opts.pop('maximum')        # only one bound given by the user
+            elif spec['opts'].get('one_sided') == 'max':
+                opts.pop('minimum')
     if cls == 'Univariate':
-        if 'candidates' in opts:
+        if 'candidate_instances' in opts:
+            opts['candidates'] = [M.uni_class(c['cls'])(**c['opts']) for c in opts.pop('candidate_instances')]
+        elif 'candidates' in opts:
             opts['candidates'] = [M.uni_class(c) for c in opts['candidates']]
         if 'parametric' in opts:
             opts['parametric'] = cu.ParametricType[opts['parametric']]
@@ -102,6 +116,8 @@ def build_model(spec, data, random_state=None):
             opts['bounded'] = cu.BoundedType[opts['bounded']]
     if random_state is not None:
         opts['random_state'] = random_state
+    for k in ('lo_frac', 'hi_frac', 'zero_bound', 'one_sided'):
+        opts.pop(k, None)
     return M.uni_class(cls)(**opts)
 
 
@@ -242,7 +258,8 @@ def oracle(case):
         below = f(m, 'cumulative_distribution', xc - delta)
         above = f(m, 'cumulative_distribution', xc + delta)
         # KDE: the root finder resolves x to ~1e-9 of its bracket (C18) and never below a few ulp of |x|
-        tol = (1e-9 + (1e-9 * rng + 16 * np.finfo(float).eps * np.abs(xc)) * dens_c) if kde else (1e-9 if not extreme else 1e-5)
+        # (the solver also has an absolute floor of 2*eps ~ 4.4e-16 in x, visible for data scales below ~1e-7)
+        tol = (1e-9 + (1e-9 * rng + 16 * np.finfo(float).eps * np.abs(xc) + 2e-15) * dens_c) if kde else (1e-9 if not extreme else 1e-5)
         bad = (below - tol > qc) | (above + tol < qc)
         require(not bad.any(), '%s: percent_point(%r)=%r but cdf just below/above is %r / %r' % (what, qc[bad][:2], xc[bad][:2], below[bad][:2], above[bad][:2]),
                 tag='ppf-inverse')
